@@ -10,6 +10,11 @@ type of each shape, VTK's mid-edge order of the quadratic tetrahedron; for geome
 "point 4+k of a cell is the midpoint of the corners of VTK edge k").
 Separately labelled streams: nodal variables whose own id order differs from the mesh (`misaligned:*`), element
 types outside the property's list (`outside:*`).
+Stream `updated` (inside the quantifier, reported through `fail`): the generated mesh object goes through a public
+update of its nodes before the export (`nodes.update(ids of existing nodes, their own coordinates,
+allow_overwrite=True)`: same mesh, but femio may re-sort the storage order); the mesh handed to the model and to the
+oracle is the one the object reports after the update (`fd.nodes.ids`, `fd.nodes.data`), the nodal variables are
+attached afterwards in that order.
 """
 import contextlib
 import io
@@ -30,7 +35,9 @@ RULE = ('meshes over the eight types the property names (line, tri, quad, tet, t
         'mid-edge nodes); node ids dense / sparse / ~1e6 / ~2e9 / prefix-like in ascending / descending / shuffled storage order, '
         'unreferenced nodes; 1-4 nodal variables of rank 1-2 (widths 1, 2, 3, 6, 9; float and int) plus rank-3 ones (which the '
         'export drops by design); a case is one mesh + variables written with write("vtk") and read with meshio.read; '
-        'non-trivial when the storage order is not 1..n ascending (ids differ from positions + 1)')
+        'non-trivial when the storage order is not 1..n ascending (ids differ from positions + 1); stream "updated": the same '
+        'meshes after nodes.update(subset or permutation of the existing ids, the same coordinates, allow_overwrite=True) on the '
+        'object (histories construct -> update -> export; the mesh compared is the one the object reports after the update)')
 ASSUMPTIONS = [
     'the VTK file encoding (binary legacy VTK 5.1) is meshio\'s, on both sides; meshio pads 2-component point data with a '
     'zero third component and reads (n,1) arrays back as (n,): compared up to that',
@@ -86,9 +93,38 @@ def gen_vars(rnd, m, misaligned=False):
     return out
 
 
-def build(m, vs):
+def gen_update(rnd, m):
+    """ids (existing nodes only) handed to nodes.update(..., allow_overwrite=True): a proper subset in random order, a
+    single node, or all nodes in another order; the values are the nodes' own coordinates"""
+    nids = [i for i, _ in m['nodes']]
+    r = rnd.random()
+    if r < .25:
+        sub = [rnd.choice(nids)]
+    elif r < .8:
+        sub = rnd.sample(nids, rnd.randint(1, max(1, len(nids) - 1)))
+    else:
+        sub = rnd.sample(nids, len(nids))
+    return sub
+
+
+def update_nodes(fd, m, upd):
+    """the public update (same coordinates); returns the mesh as the object reports it afterwards"""
+    coords = dict(m['nodes'])
+    G.quiet(fd.nodes.update, np.array(upd), np.array([[float(x) for x in coords[i]] for i in upd]), allow_overwrite=True)
+    m2 = dict(m)
+    m2['nodes'] = [(int(i), tuple(F(float(x)) for x in row)) for i, row in zip(fd.nodes.ids, np.asarray(fd.nodes.data))]
+    return m2
+
+
+def mesh_after_update(m, upd):
+    return update_nodes(G.to_femio(m), m, upd)
+
+
+def build(m, vs, upd=None):
     from femio import FEMAttribute
     fd = G.to_femio(m)
+    if upd is not None:
+        update_nodes(fd, m, upd)
     for v in vs:
         data = np.array([[int(x) if v['int'] else float(x) for x in r] for r in v['rows']]).reshape(
             [len(v['ids'])] + list(v['shape']))
@@ -96,13 +132,13 @@ def build(m, vs):
     return fd
 
 
-def run_real(ctx, m, vs):
+def run_real(ctx, m, vs, upd=None):
     import meshio
     f = ctx.tmp / 'c06.vtk'
     if f.exists():
         f.unlink()
     try:
-        fd = build(m, vs)
+        fd = build(m, vs, upd)
         with contextlib.redirect_stderr(io.StringIO()):     # meshio warns about 2-component vectors
             G.quiet(fd.write, 'vtk', str(f))
     except tuple(ERR) as e:
@@ -224,10 +260,14 @@ def oracle(m, vs, out):
     return bad
 
 
-def case_json(m, vs):
+def case_json(m, vs, upd=None):
     j = G.to_json(m)
     j['geometric_tet2'] = bool(m.get('geometric_tet2'))
-    return {'mesh': j, 'vars': C.jsonable(vs)}
+    out = {'mesh': j, 'vars': C.jsonable(vs)}
+    if upd is not None:
+        # history: construct `mesh`, nodes.update(update_ids, their own coordinates, allow_overwrite=True), attach `vars`, export
+        out['update_ids'] = list(upd)
+    return out
 
 
 def order_class(m):
@@ -282,17 +322,48 @@ def one_case(ctx, rnd, pending, stream='main'):
         pending.append((m, vs, impl, stream))
 
 
+def updated_case(ctx, rnd, pending):
+    """stream `updated`: construct -> nodes.update(existing ids, same coordinates, allow_overwrite=True) -> attach the
+    nodal variables in the order the object now reports -> write('vtk') -> meshio.read.  The mesh of the property is
+    the object's mesh at export time, i.e. what `fd.nodes.ids` / `fd.nodes.data` report after the update."""
+    stream = 'updated'
+    m = gen_mesh(rnd, ctx.quick)
+    upd = gen_update(rnd, m)
+    m2 = mesh_after_update(m, upd)
+    vs = gen_vars(rnd, m2)
+    impl = run_real(ctx, m, vs, upd)
+    case = case_json(m, vs, upd)
+    ids, ids2 = [i for i, _ in m['nodes']], [i for i, _ in m2['nodes']]
+    ctx.case((stream, G.enc_mesh(m), repr(upd), repr(vs)),
+             sample={'stream': stream, 'mesh': G.describe(m), 'update_ids': len(upd), 'order_after_update': order_class(m2),
+                     'outcome': impl[0] if impl[0] == 'ok' else impl[1]},
+             nontrivial=ids2 != list(range(1, len(ids2) + 1)))
+    ctx.count(f'updated:order:{order_class(m)}->{order_class(m2)}')
+    ctx.count('updated:storage-order:' + ('changed' if ids != ids2 else 'kept'))
+    ctx.count('updated:ids:' + ('one' if len(upd) == 1 else 'all-permuted' if len(upd) == len(ids) else 'subset'))
+    ctx.count('updated:outcome:' + (impl[0] if impl[0] == 'ok' else 'raised:' + impl[1]))
+    # the update is semantically the identity (same id -> coordinates map): recorded, it is not a clause of C06
+    ctx.count('updated:id->coordinates:' + ('kept' if dict(m['nodes']) == dict(m2['nodes']) and len(ids) == len(ids2) else 'CHANGED'))
+    if impl[0] == 'ok':
+        for sig, text in oracle(m2, vs, impl[1]):
+            ctx.fail(sig, text + ' [after nodes.update(existing ids, same coordinates, allow_overwrite=True); node ids in storage '
+                     f'order at export: {ids2[:12]}]', case, text)
+    else:
+        ctx.fail('raises', f'write("vtk") raised {impl[1]} on a mesh inside the quantifier (after a nodes.update)', case, impl[1])
+    pending.append((m2, vs, impl, stream, case))
+
+
 def flush(ctx, pending):
     if ctx.driver is None or not pending:
         pending.clear()
         return
-    replies = ctx.driver.ask_many([model_line(m, vs) for m, vs, _, _ in pending])
-    for (m, vs, impl, stream), rep in zip(pending, replies):
+    replies = ctx.driver.ask_many([model_line(p[0], p[1]) for p in pending])
+    for (m, vs, impl, stream, *rest), rep in zip(pending, replies):
         if rep.startswith('err bad-op'):
             raise RuntimeError('driver rejected a c06 request')
         model = parse_model(rep, vs)
         for d in compare(impl, model, vs):
-            ctx.disagree(d + ('' if stream == 'main' else f' [{stream}]'), case_json(m, vs),
+            ctx.disagree(d + ('' if stream == 'main' else f' [{stream}]'), rest[0] if rest else case_json(m, vs),
                          impl[1] if impl[0] == 'err' else impl[1]['cells'][:2], model[1] if model[0] == 'err' else model[1]['cells'][:2])
     pending.clear()
 
@@ -337,9 +408,19 @@ def run(ctx):
     flush(ctx, pending)
     for k in range(ctx.n(10, 50)):
         one_case(ctx, rnd, pending, 'outside')
+    # histories: the object is updated through the public API before the export (drawn after the other streams so that
+    # their cases are the same as before for a given seed)
+    for k in range(ctx.n(200, 1500)):
+        updated_case(ctx, rnd, pending)
+        if len(pending) >= 200:
+            flush(ctx, pending)
+    flush(ctx, pending)
     if ctx.driver is None:
         for k in range(ctx.n(300, 1000)):
             one_case(ctx, rnd, pending)
+            pending.clear()
+        for k in range(ctx.n(100, 500)):
+            updated_case(ctx, rnd, pending)
             pending.clear()
     if ctx.dist.get('misaligned:values-bound-to-other-nodes'):
         ctx.notes.append('misaligned stream (outside the default quantifier, DESIGN F9 class): point data is written positionally, '
@@ -357,8 +438,13 @@ def replay(ctx, obj):
     vs = case['vars']
     for v in vs:
         v['rows'] = [[F(x) for x in r] for r in v['rows']]
-    impl = run_real(ctx, m, vs)
+    upd = case.get('update_ids')
+    impl = run_real(ctx, m, vs, upd)
     res = {'outcome': impl[0] if impl[0] == 'ok' else impl[1]}
+    if upd is not None:
+        # the mesh of the property is the one the object reports after the update
+        m = mesh_after_update(m, upd)
+        res['node_ids_at_export'] = [i for i, _ in m['nodes']]
     if impl[0] == 'ok':
         bad = oracle(m, vs, impl[1])
         res.update(violations=bad, fails=bool(bad), cells=impl[1]['cells'][:3])
